@@ -88,7 +88,7 @@ def corpus():
                 seen.add(m)
                 yield m
     # double edits (seeded), concatenations, random strings
-    n2 = 60000 if tier == "quick" else 3000000
+    n2 = 60000 if tier == "quick" else 1000000
     for _ in range(n2):
         s = rng.choice(SEEDS)
         for _k in range(2):
@@ -106,7 +106,7 @@ def corpus():
                 seen.add(s)
                 yield s
     exotic = "٠١٢０１²½−–​é中퟿\x00\n\t"
-    for _ in range(20000 if tier == "quick" else 500000):
+    for _ in range(20000 if tier == "quick" else 300000):
         k = rng.randrange(0, 24)
         pool = ALPH + (exotic if rng.random() < 0.3 else "") + ("abcxyz" if rng.random() < 0.2 else "")
         s = "".join(rng.choice(pool) for _ in range(k))
@@ -133,8 +133,8 @@ with open(res_path, "w") as out:
             n += 1
             kind, detail = outcome(text, opts)
             counts[kind] = counts.get(kind, 0) + 1
-            if oi < 2:
-                out.write(json.dumps([text, oi, kind, detail if kind == "ok" else None], ensure_ascii=True) + "\n")
+            if oi < 2 and kind == "ok":
+                out.write(json.dumps([text, oi, kind, detail], ensure_ascii=True) + "\n")   # accepted strings only: compared across backends
             if kind in ("escaped", "bad-type"):
                 key = (kind, (detail or "").split(":")[0], opts.get("strict") is False, "tz" in opts)
                 classes[key] = classes.get(key, 0) + 1
